@@ -63,6 +63,8 @@ def gen_cases(tier, seed):
             c.append({'k': 'debounce', 'p': p, 'init': init})
     # every utility also under an active-low reset (enable/disable of dividers goes through ctx.or_reset)
     c += [dict(x, al=True) for i, x in enumerate(c) if i % 3 == 0 or x['k'] in ('clkdiv', 'toggle') and i % 2 == 0]
+    # ... and under an asynchronous reset (derived contexts of dividers inherit it: reset acts without a clock edge)
+    c += [dict(x, asyn=True, al=(i % 2 == 0)) for i, x in enumerate(c) if x['k'] in ('clkdiv', 'toggle') and not x.get('al') and i % 3 == 1]
     for i, x in enumerate(c):
         x['seed'] = seed * 131 + i
     return c
@@ -102,9 +104,12 @@ def start(comp, extra):
 _AL = [False]      # reset polarity of the current case (active low for every third case)
 
 
+_AS = [False]      # asynchronous reset for the current case
+
+
 def ctx_line():
-    return ("ctx = std.SequentialContext(std.Clock(self.clk), std.Reset(self.rst, active_low=True))" if _AL[0]
-            else "ctx = std.SequentialContext(std.Clock(self.clk), std.Reset(self.rst))")
+    opts = (", active_low=True" if _AL[0] else "") + (", is_async=True" if _AS[0] else "")
+    return f"ctx = std.SequentialContext(std.Clock(self.clk), std.Reset(self.rst{opts}))"
 
 
 # ------------------------------------------------------------------------------------------------ wait_for
@@ -380,6 +385,22 @@ def run_clkdiv(case, cnt, rnd):
     idx = [i for i, b in enumerate(st) if b == active]
     if not idx or idx[0] != (0 if tas else p - 1):
         return src, f"after disable()/enable() the first pulse of ClockDivider({p}, tick_at_start={tas}) comes after {idx[0] if idx else None} clocks", False
+    if _AS[0]:
+        # asynchronous reset: asserted between two clock edges while the divider is in its active state, the state must
+        # return to the default without a clock edge
+        for _ in range(3 * p):
+            s1, _, _ = observe(sim, 1)
+            if s1[0] == active:
+                break
+        else:
+            return src, f"ClockDivider({p}) never reached its active state before the asynchronous reset test", False
+        sim.set('rst', 0 if _AL[0] else 1)
+        sim.settle()
+        now = v(sim.get('st'))
+        cnt['async_reset_checks'] += 1
+        if now != int(ds):
+            return src, (f"ClockDivider({p}) in a context with an asynchronous reset: reset asserted between clock edges, state() is still "
+                         f"{now} (default state {int(ds)}) before the next edge"), False
     return src, None, True
 
 
@@ -522,6 +543,7 @@ def run_case(case):
     rnd = random.Random(case['seed'])
     k = case['k']
     _AL[0] = bool(case.get('al'))
+    _AS[0] = bool(case.get('asyn'))
     try:
         if k.startswith('wait'):
             src, m, nt = run_wait(case, cnt, rnd)
